@@ -5,6 +5,7 @@ mod common;
 mod probe;
 mod astwalk;
 mod c06;
+mod c07;
 mod c09;
 mod c10;
 mod c11;
@@ -28,6 +29,7 @@ fn gen_all(id: &str, seed: u64, n: usize, thorough: bool) -> Vec<String> {
         "C15" => c15::gen_cases(seed, n, thorough),
         "C09" => c09::gen_cases(seed, n, thorough),
         "C12" => c12::gen_cases(seed, n, thorough),
+        "C07" => c07::gen_cases(seed, n, thorough),
         "C14" => c14::gen_cases(seed, n, thorough),
         _ => panic!("unknown property {}", id),
     }
@@ -44,6 +46,7 @@ fn run_line(id: &str, line: &str) -> String {
         "C15" => c15::run_line(line),
         "C09" => c09::run_line(line),
         "C12" => c12::run_line(line),
+        "C07" => c07::run_line(line),
         "C14" => c14::run_line(line),
         _ => "UNKNOWN-PROPERTY".to_string(),
     });
@@ -58,6 +61,11 @@ fn main() {
     if args.len() < 3 {
         eprintln!("usage: implrun gen|run <ID> [--seed S] [--n N] [--thorough] --cases F --impl F");
         std::process::exit(2);
+    }
+    if args[1] == "digest" {
+        common::quiet_panics();
+        c07::digest_main(&args[2..]);
+        return;
     }
     if args[1] == "ast" {
         println!("{}", c09::dump(&args[2]));
